@@ -1,5 +1,7 @@
 package main
 
+import "strings"
+
 var propTable = map[string]*PropDef{}
 
 func prop(id string, rules []string, explanation, notDecided string) *PropDef {
@@ -12,4 +14,11 @@ func init() {
 	prop("C13", []string{"MSTOR", "MUTSITE", "PARSEFIRST", "ERRPROP"},
 		"Structural necessary conditions of C13, decided for every function, path and call site of the package: MUTSITE (mutating Storage calls exist only inside the three writer plans; the closure of the SELECT builder with all methods of every plan type it can build has none; planning has none; parsing/checking reach no storage call at all), PARSEFIRST (no storage-reaching call before the parse/validate error test succeeded), ERRPROP (every error produced by a storage-reaching call is examined on every path and returned - itself or wrapped - on every failure path, with no further storage-reaching call and no loop continuation).",
 		"Nothing structural is left out; 'returns that error' is decided as 'the returned error is data-derived from it'. The caller's Storage implementation is outside the analysis.")
+}
+
+func init() {
+	prop("C14", []string{"CHILDVISIT", "FUNCREG", "WHEREBOOL", "KWFLAGS", "MUTSITE", "PARSEFIRST"},
+		"Structural necessary conditions of C14: CHILDVISIT (every Expression node's Check visits every child and returns the child's error, so a fault is seen at every syntactic position; every statement's Validate reaches Check on each of its expressions and the parser returns the validation error), FUNCREG (the function-call Check consults both registries and the arity), WHEREBOOL (SELECT and DELETE both type-check the WHERE expression and require a Boolean result), KWFLAGS (PUT forbids `value`, REMOVE forbids `key`/`value`, and FieldExpr.Check enforces the flags), MUTSITE(d)+PARSEFIRST (rejection happens before any storage access: parsing/checking reach no storage call; no storage-reaching call precedes the parse/validate error test).",
+		"Completeness and soundness of the operand typing rules themselves (accept exactly the well-typed statements; no operand-type error at run time) beyond rule ADMIT are value/type-level facts not decided here.")
+	propTable["C14"].KeyFilter["MUTSITE"] = func(k string) bool { return strings.HasPrefix(k, "MUTSITE|d|") }
 }
